@@ -74,10 +74,19 @@ const errPrefix = "verif-probe-error-"
 type probe struct {
 	id             string
 	errReq, errRes bool
+	gen            string // position of the script command during which this instance was created
 }
+
+const genHeader = "X-Verif-Gen"
+
+// curCmd: position of the script command being executed (instances created
+// while it runs - by parse.FromJSON inside the handler, or by a SET command -
+// carry it).
+var curCmd int64
 
 func (p *probe) modReq(req *http.Request) error {
 	req.Header.Add(traceHeader, p.id)
+	req.Header.Add(genHeader, p.gen)
 	if p.errReq {
 		return fmt.Errorf("%s%s", errPrefix, p.id)
 	}
@@ -86,6 +95,7 @@ func (p *probe) modReq(req *http.Request) error {
 
 func (p *probe) modRes(res *http.Response) error {
 	res.Header.Add(traceHeader, p.id)
+	res.Header.Add(genHeader, p.gen)
 	if p.errRes {
 		return fmt.Errorf("%s%s", errPrefix, p.id)
 	}
@@ -115,7 +125,8 @@ func probeFromJSON(b []byte) (*parse.Result, error) {
 	if err := json.Unmarshal(b, msg); err != nil {
 		return nil, err
 	}
-	p := probe{id: strconv.FormatInt(msg.ID, 10), errReq: msg.ErrReq, errRes: msg.ErrRes}
+	p := probe{id: strconv.FormatInt(msg.ID, 10), errReq: msg.ErrReq, errRes: msg.ErrRes,
+		gen: strconv.FormatInt(atomic.LoadInt64(&curCmd), 10)}
 	var mod interface{}
 	switch msg.Caps {
 	case "req":
@@ -146,8 +157,12 @@ type node struct {
 	variant  string
 }
 
+func isSet(t string) bool {
+	return (strings.HasPrefix(t, "SETq") || strings.HasPrefix(t, "SETs")) && isDigits(t[4:])
+}
+
 func isCmd(t string) bool {
-	return t == "POST" || t == "GET" || t == "MSGq" || t == "MSGs"
+	return t == "POST" || t == "GET" || t == "MSGq" || t == "MSGs" || isSet(t)
 }
 
 func validScope(s string) bool {
@@ -650,8 +665,40 @@ type delivery struct {
 
 func (d delivery) fails() bool { return d.mode == "RDERR" || d.mode == "TCPCL" || d.mode == "TCPCH" }
 
+// respace inserts insignificant whitespace around every structural character
+// outside strings (the same JSON value, formatted differently).
+func respace(b string) string {
+	var sb strings.Builder
+	inStr, esc := false, false
+	for i := 0; i < len(b); i++ {
+		c := b[i]
+		if inStr {
+			sb.WriteByte(c)
+			if esc {
+				esc = false
+			} else if c == '\\' {
+				esc = true
+			} else if c == '"' {
+				inStr = false
+			}
+			continue
+		}
+		switch c {
+		case '"':
+			inStr = true
+			sb.WriteByte(c)
+		case ',', ':', '{', '}', '[', ']':
+			sb.WriteString(" \n" + string(c) + "\t ")
+		default:
+			sb.WriteByte(c)
+		}
+	}
+	return sb.String()
+}
+
 func postBodyD(toks []string) (body string, root *node, d delivery, err error) {
 	trunc, trail, pad := 0, false, false
+	lpad, spaced := false, false
 	i := 0
 	for ; i < len(toks); i++ {
 		t := toks[i]
@@ -672,6 +719,10 @@ func postBodyD(toks []string) (body string, root *node, d delivery, err error) {
 			trail = true
 		case t == "PAD":
 			pad = true
+		case t == "LPAD":
+			lpad = true
+		case t == "SPACED":
+			spaced = true
 		case strings.HasPrefix(t, "RDERR"):
 			if d.pct, err = pctOf("RDERR"); err != nil {
 				return "", nil, d, err
@@ -711,6 +762,12 @@ tree:
 		return "", nil, d, fmt.Errorf("trailing tokens after tree")
 	}
 	body = root.render()
+	if spaced {
+		body = strings.TrimRight(respace(body), " \t\n")
+	}
+	if lpad {
+		body = "\n\n   " + body
+	}
 	if pad {
 		body = " \n\t" + body + "\n  "
 	}
@@ -829,6 +886,10 @@ func runScript(in []string) (out []string) {
 			if len(c.toks) != 0 {
 				return []string{"BADCASE"}
 			}
+		default: // SETq<id> / SETs<id>
+			if len(c.toks) != 0 || direct {
+				return []string{"BADCASE"}
+			}
 		}
 	}
 	if direct && (len(cmds) == 0 || cmds[0].op != "POST") {
@@ -847,6 +908,30 @@ func runScript(in []string) (out []string) {
 	drej := false
 	var bodies []string // indented bodies of all POSTs, by command index ("" for others)
 	for i, c := range cmds {
+		atomic.StoreInt64(&curCmd, int64(i))
+		if isSet(c.op) {
+			// the public setters: a fresh probe (id 0 = nil) as request / response modifier
+			bodies = append(bodies, "")
+			var mod *probeBoth
+			if c.op[4:] != "0" {
+				mod = &probeBoth{probe{id: c.op[4:], gen: strconv.Itoa(i)}}
+			}
+			if c.op[3] == 'q' {
+				if mod == nil {
+					mh.SetRequestModifier(nil)
+				} else {
+					mh.SetRequestModifier(mod)
+				}
+			} else {
+				if mod == nil {
+					mh.SetResponseModifier(nil)
+				} else {
+					mh.SetResponseModifier(mod)
+				}
+			}
+			out = append(out, "OK")
+			continue
+		}
 		switch c.op {
 		case "POST":
 			prep[i].root.filters(filters)
@@ -939,7 +1024,7 @@ func runScript(in []string) (out []string) {
 			}
 			req, res := m.build()
 			var err error
-			var tr []string
+			var tr, gens []string
 			if !m.res {
 				if direct {
 					if rm := dres.RequestModifier(); rm != nil {
@@ -949,6 +1034,7 @@ func runScript(in []string) (out []string) {
 					err = mh.ModifyRequest(req)
 				}
 				tr = req.Header[traceHeader]
+				gens = req.Header[genHeader]
 			} else {
 				if direct {
 					if rm := dres.ResponseModifier(); rm != nil {
@@ -961,8 +1047,28 @@ func runScript(in []string) (out []string) {
 				if len(req.Header[traceHeader]) != 0 {
 					tr = append(tr, "!req")
 				}
+				gens = res.Header[genHeader]
 			}
-			out = append(out, "T"+strings.Join(tr, ","), flattenErr(err))
+			// which commands created the instances that ran (distinct, ascending)
+			seen := map[string]bool{}
+			var gl []int
+			for _, g := range gens {
+				if !seen[g] {
+					seen[g] = true
+					n, _ := strconv.Atoi(g)
+					gl = append(gl, n)
+				}
+			}
+			sort.Ints(gl)
+			otok := "O-"
+			if len(gl) > 0 {
+				var gs []string
+				for _, n := range gl {
+					gs = append(gs, strconv.Itoa(n))
+				}
+				otok = "O" + strings.Join(gs, "+")
+			}
+			out = append(out, "T"+strings.Join(tr, ","), flattenErr(err), otok)
 		}
 	}
 	return out
@@ -2037,6 +2143,81 @@ func main() {
 			}
 		}
 		emit("delivery", in)
+	}
+
+	// 10. histories with REPEATED configurations (identical bytes, re-formatted
+	// equal ones), the public setters overriding a half in between, traffic and
+	// GET: an accepted POST installs a fresh tree on both halves whatever was
+	// there.
+	probeBoth := []string{"MSGq", "MSGs"}
+	treesA := [][]string{
+		{"L1.b.0.-"},
+		{"F1.-", "L1.b.0.-", "fh1.0.-", "L2.b.b.-", "ELSE", "L3.b.0.-", ")", ")"},
+		{"R-", "@1", "L1.b.0.q", "@2", "L2.b.0.s", "@1", "L3.b.0.-", ")"},
+	}
+	for ai, A := range treesA {
+		for _, fmt2 := range [][]string{{}, {"LPAD"}, {"SPACED"}, {"SPACED", "LPAD"}, {"PAD"}, {"TCP"}} {
+			for _, ov := range [][]string{{}, {"SETq71"}, {"SETs72"}, {"SETq71", "SETs72"}, {"SETq0"}, {"SETs0", "SETq73"}} {
+				in := []string{"HTTP", "POST"}
+				in = append(in, A...)
+				in = append(in, probeBoth...)
+				for _, o := range ov {
+					in = append(in, o)
+				}
+				in = append(in, probeBoth...)
+				in = append(in, "GET", "POST")
+				in = append(in, fmt2...)
+				in = append(in, A...)
+				in = append(in, probeBoth...)
+				in = append(in, "GET")
+				if ai == 1 {
+					// ... and once more after something else was active
+					in = append(in, "POST", "L9.b.0.-", "SETs74", "POST")
+					in = append(in, A...)
+					in = append(in, probeBoth...)
+					in = append(in, "GET")
+				}
+				emit("exh-repeat", in)
+			}
+		}
+	}
+	for k := 0; k < 150*scale; k++ {
+		g := &gen{r: rng.Fork(), cfg: cfg}
+		var pool [][]string
+		for i := g.r.Range(1, 3); i > 0; i-- {
+			g.started = false
+			pool = append(pool, g.tree(g.r.Range(1, 3), g.r.Range(1, 3)))
+		}
+		in := []string{"HTTP"}
+		for i := g.r.Range(3, 8); i > 0; i-- {
+			switch g.r.Intn(10) {
+			case 0, 1:
+				in = append(in, []string{"SETq", "SETs"}[g.r.Intn(2)]+strconv.Itoa(g.r.Intn(3)*(70+g.r.Intn(9))))
+			case 2:
+				in = append(in, "GET")
+			default:
+				in = append(in, "POST")
+				switch g.r.Intn(8) {
+				case 0:
+					in = append(in, "LPAD")
+				case 1:
+					in = append(in, "SPACED")
+				case 2:
+					in = append(in, "PAD")
+				case 3:
+					in = append(in, "TRUNC"+strconv.Itoa(g.r.Range(1, 99)))
+				case 4:
+					in = append(in, "RDERR100")
+				}
+				in = append(in, pool[g.r.Intn(len(pool))]...)
+			}
+			in = append(in, g.msg()...)
+			if g.r.Bool() {
+				in = append(in, g.msg()...)
+			}
+		}
+		in = append(in, "GET")
+		emit("repeat", in)
 	}
 
 	// 8. stress: atomic replacement seen by concurrent exchanges and GETs
